@@ -227,8 +227,10 @@ def update_nonnegative_accumulate(current_value, new_value):
         The sum of ``current_value`` and ``new_value`` if positive, 0 if negative.
     """
     updated_value = current_value + new_value
-    if isinstance(updated_value, np.ndarray):
-        updated_value[updated_value < 0] = 0
+    # (for an array with units, the array is the quantity's magnitude)
+    magnitude = getattr(updated_value, 'magnitude', updated_value)
+    if isinstance(magnitude, np.ndarray):
+        magnitude[magnitude < 0] = 0
         return updated_value
     elif updated_value >= 0:
         return updated_value
